@@ -43,10 +43,41 @@ def _hp(m, ev0, alg):
 
 def run(ctx):
   exhaustive(ctx)
+  fresh_initial_state(ctx)
   fd_bookkeeping(ctx)
   closed_forms(ctx)
   from . import C09
   C09.oco_fd(ctx)
+
+
+def fresh_initial_state(ctx):
+  """O4: the update functions modify the state dictionary they are given in place, so every init() must BUILD a state:
+  the init functions are called when the bound init callable is invoked, not once when the (init, update) pair is made
+  (a cached initial state is aliased by every history run on that pair: the second history starts from the end of the
+  first, and no closed form holds for it)."""
+  m = ctx.model
+  fi = m.func(OM, 'generate_init_update')
+  ctx.analysed(fi)
+  inits = {'_ogd_init_fn', '_diag_adagrad_init_fn', '_fd_init_fn'}
+  ev = evaluator(m, opaque=inits | {'_ogd_update_fn', '_diag_adagrad_update_fn', '_fd_update_fn'})
+  r = ev.run(fi)
+  if r.op != 'tuple' or len(r.args) != 2:
+    raise AnalysisError('generate_init_update does not return (init, update)')
+  early = [c for c in ev.calls if c.callee.split('.')[-1] in inits]
+  ctx.ob('C16.O4', fi.short, 'no state is built when the pair is made', not early,
+         f'`{early[0].callee.split(".")[-1] if early else ""}` is called while the (init, update) pair is constructed: the state it returns is shared by '
+         'every later init() call, and the update functions mutate it in place', ctx.loc(fi, early[0].node) if early and early[0].node is not None else ctx.loc(fi),
+         sample='init functions not called at factory time')
+  n0 = len(ev.calls)
+  callee = r.args[0]
+  okc = callee.op in ('closure', 'partial', 'bound')
+  late = []
+  if okc:
+    ev.call(callee, [], {}, None, None)
+    late = [c for c in ev.calls[n0:] if c.callee.split('.')[-1] in inits]
+  ctx.ob('C16.O4', fi.short, 'calling init() builds the state', okc and len({c.callee for c in late}) == len(inits),
+         f'invoking the returned init callable must call the selected init function (found calls to {sorted({c.callee.split(".")[-1] for c in late})})',
+         ctx.loc(fi), sample='bound_init_fn() -> init(w_shape, hparams)')
 
 
 def exhaustive(ctx):
